@@ -243,6 +243,10 @@ fn table_seeds(font_name: &str, font: &FontRef, out: &mut Vec<Seed>, st: &mut Se
                 let d = drv("bitmap");
                 drivers_of = Box::new(move |_| vec![(d, [0, 0, 3])]);
             }
+            b"fpgm" | b"prep" => {
+                let d = drv("bytecode");
+                drivers_of = Box::new(move |_| vec![(d, [0; 3])]);
+            }
             b"cvt " => {
                 let d = drv("raw");
                 drivers_of = Box::new(move |_| vec![(d, [0, 0, tagu(b"cvt ")])]);
